@@ -600,6 +600,11 @@ package classifier
 //@   ghostset pseudoMs = result0.Matches after tokenizeStream
 //@   ensures [pseudo-reported @C06] result0.TotalInputLines > 0 ==> (forall k int :: 0 <= k && k < len(pseudoMs) ==> (exists j int :: 0 <= j && j < len(result0.Matches) && result0.Matches[j] == pseudoMs[k]))
 //@   access Match.Confidence write requires same(value, lastScore)
+//@   // C04: the loops over the corpus and over the first-pass survivors visit
+//@   // every entry (a map is ranged in arbitrary order; stopping early would make
+//@   // the result depend on that order)
+//@   loop 1 exit nvisited() == len(c.docs)
+//@   loop 2 exit nvisited() == len(firstPass)
 //@   loop 1 invariant firstPass != nil && fresh(firstPass) && wfDoc(id) && fresh(id) && id.s == nil && id.dict == c.dict
 //@   loop 1 invariant forall l string :: (l in firstPass) ==> (l in c.docs) && firstPass[l] == c.docs[l]
 //@   loop 2 invariant fresh(firstPass) && wfDoc(id) && fresh(id) && wfSet(id.s) && id.s.Tokens == id.Tokens && id.dict == c.dict
